@@ -11,7 +11,8 @@
 From Coq Require Import NArith Bool List Lia.
 From RS.Gen Require Import Prelude GenConsts.
 From RS.Model Require Import Field Tables Sched Codec Spec.
-From RS.Proofs Require Import RoundLow RoundHigh RoundShards.
+From RS.Model Require Import Layout Machine.
+From RS.Proofs Require Import PermFacts RoundLow RoundHigh RoundShards MachineOps.
 Import ListNotations.
 Local Open Scope N_scope.
 
@@ -79,6 +80,61 @@ Theorem C01_high_shards : forall lanes (e e' : engine) (K R : N) (recv : N -> bo
   nth (N.to_nat (2 ^ N.of_nat k + i)) (snd (decode_high_work (shard_ops lanes) e' K R recv work)) [] = nth (N.to_nat i) w [].
 Proof. intros lanes e e' K R recv k kn w work; intros. eapply (decode_high_roundtrip_shards lanes e e' K R recv k kn); eassumption. Qed.
 Print Assumptions C01_high_shards.
+
+(* ---------- through the streaming API of the machine ---------- *)
+(* Make an encoder (any codec, engine, valid configuration and shard size, any recycled working
+   space), add the originals, encode.  Make a decoder (any engine, any recycled working space),
+   add ANY list of shards that the decoder accepts, each being the original or the produced
+   recovery shard of its index, at least original_count of them.  Then the decoder's working
+   vector holds at the position of every original that was not added exactly that original (as
+   packed symbols; unpacked: the original bytes) - which is what restored_original(i) and the
+   iterator return (C12).  junk = the stale contents of both working memories. *)
+Theorem C01_api_low : forall junk, (forall a b c, junk a b c < 65536) ->
+  forall c ee ed K R sb ep ep' originals, validateb c K R sb = None -> rate_of c K R = Low ->
+  N.of_nat (length originals) = K -> Forall (byteshard sb) originals ->
+  forall w0 x0 x a0, enc_make c ee K R sb w0 = inl (x0, a0) -> enc_add_all x0 originals = inl x ->
+  forall v0 y0 y b0 adds, dec_make c ed K R sb v0 = inl (y0, b0) -> dec_adds y0 adds = inl y ->
+  (forall a, In a adds -> match a with AddO i s => s = nth (N.to_nat i) originals []
+                                     | AddR j s => s = nth (N.to_nat j) (encode_shards junk ep x) [] end) ->
+  K <= N.of_nat (length adds) ->
+  forall i, i < K -> (forall s, ~ In (AddO i s) adds) ->
+  nth (N.to_nat i) (decode_work junk ep' y) [] = syms_of_bytes (nth (N.to_nat i) originals []) /\
+  bytes_of_syms (nth (N.to_nat i) (decode_work junk ep' y) []) = nth (N.to_nat i) originals [].
+Proof. intros. eapply ops_low_restores; eassumption. Qed.
+Print Assumptions C01_api_low.
+
+Theorem C01_api_high : forall junk, (forall a b c, junk a b c < 65536) ->
+  forall c ee ed K R sb ep ep' originals, validateb c K R sb = None -> rate_of c K R = High ->
+  N.of_nat (length originals) = K -> Forall (byteshard sb) originals ->
+  forall w0 x0 x a0, enc_make c ee K R sb w0 = inl (x0, a0) -> enc_add_all x0 originals = inl x ->
+  forall v0 y0 y b0 adds, dec_make c ed K R sb v0 = inl (y0, b0) -> dec_adds y0 adds = inl y ->
+  (forall a, In a adds -> match a with AddO i s => s = nth (N.to_nat i) originals []
+                                     | AddR j s => s = nth (N.to_nat j) (encode_shards junk ep x) [] end) ->
+  K <= N.of_nat (length adds) ->
+  forall i, i < K -> (forall s, ~ In (AddO i s) adds) ->
+  nth (N.to_nat (npow2 R + i)) (decode_work junk ep' y) [] = syms_of_bytes (nth (N.to_nat i) originals []) /\
+  bytes_of_syms (nth (N.to_nat (npow2 R + i)) (decode_work junk ep' y) []) = nth (N.to_nat i) originals [].
+Proof. intros. eapply ops_high_restores; eassumption. Qed.
+Print Assumptions C01_api_high.
+
+(* ... and decode() itself: it succeeds and its iterator contains (i, original i) for every
+   original that was not given *)
+Theorem C01_api_decode : forall junk, (forall a b c, junk a b c < 65536) ->
+  forall c ee ed K R sb ep ep' originals, validateb c K R sb = None ->
+  N.of_nat (length originals) = K -> Forall (byteshard sb) originals ->
+  forall w0 x0 x a0, enc_make c ee K R sb w0 = inl (x0, a0) -> enc_add_all x0 originals = inl x ->
+  forall v0 y0 y b0 adds, dec_make c ed K R sb v0 = inl (y0, b0) -> dec_adds y0 adds = inl y ->
+  (forall a, In a adds -> match a with AddO i s => s = nth (N.to_nat i) originals []
+                                     | AddR j s => s = nth (N.to_nat j) (encode_shards junk ep x) [] end) ->
+  K <= N.of_nat (length adds) ->
+  forall probes i, i < K -> (forall s, ~ In (AddO i s) adds) ->
+  exists y' it pr, dec_decode junk ep' y probes = (y', RDec it pr) /\ In (i, nth (N.to_nat i) originals []) it.
+Proof.
+  intros junk Hj c ee ed K R sb ep ep' originals Hv; intros. destruct (rate_of c K R) eqn:Er.
+  - eapply ops_high_decode; eassumption.
+  - eapply ops_low_decode; eassumption.
+Qed.
+Print Assumptions C01_api_decode.
 
 Definition data (K : N) : list N := map (fun i => (i * 40503 + 977) mod 65536) (range 0 K).
 Definition junkv (i : N) : N := (i * 7919 + 4242) mod 65536.
